@@ -195,6 +195,62 @@ def operations(d):
     return ops
 
 
+MIN_VERSION = {
+    '/resource_classes': 2, '/resource_classes/{name}': 2,
+    '/traits': 6, '/traits/{name}': 6,
+    '/resource_providers/{uuid}/traits': 6,
+    '/usages': 9, '/allocation_candidates': 10, '/reshaper': 30,
+    '/resource_providers/{uuid}/aggregates': 1,
+}
+
+
+def at_version(op, req, n):
+    """the request of operations() rewritten for microversion 1.<n>, or None
+    when the operation does not exist there (documented history of the
+    request formats: api-ref / rest_api_version_history)"""
+    import copy
+    m, route = op
+    lo = MIN_VERSION.get(route, 0)
+    if op == ('POST', '/allocations'):
+        lo = 13
+    if op == ('DELETE', '/resource_providers/{uuid}/inventories'):
+        lo = 5
+    if n < lo:
+        return None
+    body = copy.deepcopy(req['body'])
+    path = req['path']
+    if op == ('PUT', '/resource_classes/{name}') and n < 7:
+        path, body = '/resource_classes/CUSTOM_UNUSED', \
+            {'name': 'CUSTOM_RENAMED'}
+    if op == ('PUT', '/resource_providers/{uuid}') and n < 14:
+        body.pop('parent_provider_uuid')
+    if op == ('PUT', '/resource_providers/{uuid}/aggregates') and n < 19:
+        body = body['aggregates']
+
+    def entry(e):
+        if n < 38:
+            e.pop('consumer_type', None)
+        if n < 28:
+            e.pop('consumer_generation', None)
+        if n < 8:
+            e.pop('project_id', None)
+            e.pop('user_id', None)
+    if op == ('PUT', '/allocations/{consumer_uuid}'):
+        entry(body)
+        if n < 12:
+            body['allocations'] = [
+                {'resource_provider': {'uuid': rp},
+                 'resources': x['resources']}
+                for rp, x in body['allocations'].items()]
+    if op == ('POST', '/allocations'):
+        for e in body.values():
+            entry(e)
+    if op == ('POST', '/reshaper'):
+        for e in body['allocations'].values():
+            entry(e)
+    return Req(m, path, '1.%d' % n, body, roles=req['roles'])
+
+
 def concrete_path(template):
     """an existing-entity path for a routing-table template."""
     return (template.replace('{uuid}', R)
